@@ -161,8 +161,9 @@ fn judge_quotient_inner(ctx: &mut Ctx, case: &Case, what: &str, a: &Dec, b: &Dec
         while num < den { num *= 10u8; }
         let d0 = ndigits(&(&num / &den));
         let want = d0.max(prec);
-        let carried = nd == want + 1 && res.n.abs() == pow10(nd - 1);
-        ctx.check(nd == want || carried, "div/not-the-configured-number-of-digits", case, || format!(
+        // (rounding the long integer part to exactly P digits would equally "deliver the configured number")
+        let carried = (nd == want + 1 || nd == prec + 1) && res.n.abs() == pow10(nd - 1);
+        ctx.check(nd == want || nd == prec || carried, "div/not-the-configured-number-of-digits", case, || format!(
             "`{}`: {} / {} = {} has {} significant digits; configured precision {} (integer quotient has {})", what, a.tok(), b.tok(), res.tok(), nd, prec, d0));
     }
     // compare Q*b with a*10^E, E = b.s - a.s + sc
